@@ -819,19 +819,32 @@ def prep_bind(sc):
     prep_vecmap(sc)
 
 
-U_BIND2 = KaniUnit(
-    "U-BIND", "FunctionDef::call on lambdas with two parameters, every pair of kinds the grammar accepts (incl. a required "
-    "parameter after an optional / rest one) x 0..=3 arguments: no panic (a parameter left without an argument is an error); "
-    "required -> argument at its position, optional -> argument or null, rest -> fresh list of the remaining arguments in order; "
-    "call-time scope chain parameters > self name > captured scope > caller; the caller's scope is unchanged",
-    modules=[("functions.rs", "verif_bind.rs")],
-    harnesses=["u_bind_req_req", "u_bind_req_opt", "u_bind_req_rest", "u_bind_opt_opt", "u_bind_opt_rest", "u_bind_opt_req",
-               "u_bind_rest_req", "u_bind_scope_chain", "u_bind_own_name"],
+BIND_ASSUME = [STUB_ASSUMPTIONS[0], VECMAP_ASSUMPTION, CALL_STUBS[2], CALL_STUBS[3],
+               "Kani stub (probe) for expressions::evaluate_ast: reads the parameter / captured / caller names out of the scope "
+               "it is handed and returns a fixed value (callee contract, not callee body)"]
+
+U_BIND_Q = KaniUnit(
+    "U-BIND", "FunctionDef::call on two-parameter lambdas (quick part): `(a?, b)` x 0..=3 arguments - no panic, a required "
+    "parameter left without an argument is an error, otherwise positional binding; and a parameter shadows the function's own "
+    "name (a named function whose first parameter has its name)",
+    modules=[("functions.rs", "verif_bind.rs")], harnesses=["u_bind_opt_req", "u_bind_own_name"],
     functions=[("functions.rs", "call", "FunctionDef"), ("environment.rs", "get", "Environment")],
-    prepare=prep_bind, timeout=1500, complete=False, bound="2 parameters, 0..=3 arguments, fixed names",
-    assumptions=[STUB_ASSUMPTIONS[0], VECMAP_ASSUMPTION, CALL_STUBS[2], CALL_STUBS[3],
-                 "Kani stub (probe) for expressions::evaluate_ast: reads the parameter / captured / caller names out of the scope "
-                 "it is handed and returns a fixed value (callee contract, not callee body)"])
+    prepare=prep_bind, timeout=1800, complete=False, bound="2 parameters, 0..=3 arguments, fixed names", assumptions=BIND_ASSUME)
+
+U_BIND_QT = KaniUnit(
+    "U-BIND", U_BIND_Q.title, modules=U_BIND_Q.modules, harnesses=U_BIND_Q.harnesses, functions=U_BIND_Q.functions,
+    prepare=prep_bind, timeout=1800, tier="thorough", complete=False, bound=U_BIND_Q.bound, assumptions=BIND_ASSUME)
+
+U_BIND_T = KaniUnit(
+    "U-BIND-SHAPES", "FunctionDef::call on two-parameter lambdas (thorough part): (a, b), (a, b?), (a?, b?), (a?, ...r), (...r, b) "
+    "x 0..=3 arguments: no panic; required -> argument at its position, optional -> argument or null, rest -> fresh list of "
+    "the remaining arguments in order; parameters never leak into the caller. ((a, ...r) and the full scope-chain scenario "
+    "ran out of memory at 30 GB and are not registered.)",
+    modules=[("functions.rs", "verif_bind.rs")],
+    harnesses=["u_bind_req_req", "u_bind_req_opt", "u_bind_opt_opt", "u_bind_opt_rest", "u_bind_rest_req"],
+    functions=[("functions.rs", "call", "FunctionDef")],
+    prepare=prep_bind, timeout=2400, tier="thorough", complete=False, bound="2 parameters, 0..=3 arguments, fixed names",
+    assumptions=BIND_ASSUME)
 
 U_PREC = KaniUnit(
     "U-PREC", "operator_info orders the 26 operators as the C10 table; ^ alone is right-associative; table rows "
@@ -920,7 +933,7 @@ prop("C10", [U_PREC], "other",
       "that build_pratt_parser registers the table in this order (U-PRATT-REG pending)"],
      ["pest PrattParser semantics"])
 
-prop("C01", [U_ARITY, U_HEAP, U_GUARD, U_GUARD_FACTORIAL], "other",
+prop("C01", [U_ARITY, U_HEAP, U_GUARD, U_GUARD_FACTORIAL, U_BIND_QT, U_BIND_T], "other",
      "Absence of panics is Kani's default postcondition (bounds, unwrap/expect, overflow, unreachable). Units: arity "
      "check before indexing, heap typed-pointer invariant (Verus).",
      ["pest parsing of arbitrary UTF-8 and pairs_to_expr unwraps", "ariadne rendering and span-inside-text",
@@ -944,7 +957,7 @@ prop("C11", [U_BINOP_SCALAR, U_BINOP_DISPATCH, U_BINOP_ROUTE, U_ORDERING, U_BCAS
       "string concatenation by + (format!/String)", "the value of ^ beyond 'a number' (f64::powf primitive)"],
      BINOP_STUBS)
 
-prop("C04", [U_ARITY, U_ARITY_LAMBDA, U_BIND2], "other",
+prop("C04", [U_ARITY, U_ARITY_LAMBDA, U_BIND_Q, U_BIND_T], "other",
      "Arity classes and positional binding: can_accept for all usize (complete); get_arity/check_arity and the binding "
      "loop + call-time scope chain of FunctionDef::call for parameter lists of <= 3 parameters (bounded, labelled). "
      "What is captured (free-variable analysis) and call-site independence are NOT decided.",
